@@ -888,6 +888,23 @@ class C04(Base):
         for mod, orig in self._patched:
             mod.bounding_potential_warning = orig
 
+    def after_send_event_time(self, bus, h, snap, r):
+        # handlers with a piecewise constant bounding potential: a candidate at exactly the end of the look-ahead window
+        # (time displacement == max_displacement) is no event at all, only a time-slicing stop
+        md = getattr(h, "_max_displacement", None)
+        if md is None or not snap:
+            return
+        t = r[0] if isinstance(r, tuple) else r
+        act = [u for k, u in snap.items() if u[1] is not None and u[2] is not None
+               and not any(len(o) > len(k) and o[:len(k)] == k for o in snap)]
+        if len(act) != 1 or not hasattr(t, "quotient"):
+            return
+        q0, r0 = act[0][2]
+        dt = (t.quotient - q0) + (t.remainder - r0)
+        if not hasattr(self, "window_end"):
+            self.window_end = {}
+        self.window_end[id(h)] = abs(dt - md) <= 8 * math.ulp(max(md, abs(t.remainder), 1e-300))
+
     def before_send_out_state(self, bus, h, args):
         self.cur = h
         self.warns, self.draws = [], []
@@ -900,6 +917,16 @@ class C04(Base):
 
     def after_send_out_state(self, bus, h, args, out):
         self.cur = None
+        if getattr(self, "window_end", {}).get(id(h)):
+            self.acc.count("look_ahead_window_end_stops_checked")
+            post = probe.snap_branches(out) if out else {}
+            moved = [k for k, u in post.items() if k in self.pre and u[1] != self.pre[k][1]]
+            if moved or self.draws:
+                self.viol(bus, "window-end-stop-treated-as-candidate",
+                          f"{real_class_name(h)}: the candidate lay beyond the look-ahead window (stop after exactly "
+                          f"max_displacement), yet the out-state computation drew {self.draws[:1]} and changed the velocities "
+                          f"of {[list(k) for k in moved]}: an event without a bounding rate was thinned/confirmed")
+            return
         if not self.warns:
             if hasattr(h, "_bounding_potential") or "CellVeto" in real_class_name(h):
                 self.acc.count("thinned_events_without_positive_rate")
